@@ -660,3 +660,349 @@ func c23Extras(c *Ctx) {
 		c.Check(ok, "R-VSET", "rsa.decryptPKCS1v15", "the zero-separator scan covers EM[2:] (a zero inside the first eight padding octets is seen)", w.Pos(fn.Pos()), det)
 	}
 }
+
+// helper: stores to a field "T.f" inside fn
+func storesToField(fn *ssa.Function, field string) []ssa.Instruction {
+	var out []ssa.Instruction
+	for _, b := range fn.Blocks {
+		for _, in := range b.Instrs {
+			if st, ok := in.(*ssa.Store); ok {
+				if fa, ok := st.Addr.(*ssa.FieldAddr); ok && fieldName(fa) == field {
+					out = append(out, in)
+				}
+			}
+		}
+	}
+	return out
+}
+
+func c24Extras(c *Ctx) {
+	w := c.W
+	// the second ClientHello (after a HelloRetryRequest): once a field of the hello was changed, the cached
+	// encoding is dropped before anything is computed from or sent as hello.marshal*()
+	fn := w.Fn("(*z/tls.clientHandshakeStateTLS13).processHelloRetryRequest")
+	if fn == nil {
+		c.Undecided("R-STATE", "tls.processHelloRetryRequest", "anchor", "-", "not found")
+		return
+	}
+	n := 0
+	for _, b := range fn.Blocks {
+		for _, in := range b.Instrs {
+			st, ok := in.(*ssa.Store)
+			if !ok {
+				continue
+			}
+			fa, ok := st.Addr.(*ssa.FieldAddr)
+			if !ok || !strings.HasPrefix(fieldName(fa), "clientHelloMsg.") || fieldName(fa) == "clientHelloMsg.raw" {
+				continue
+			}
+			n++
+			c.Sites++
+			// already dropped: a raw = nil store dominates this update and no marshal call lies between them
+			dropped := false
+			for _, r := range storesToField(fn, "clientHelloMsg.raw") {
+				if !isNilConst(r.(*ssa.Store).Val) || !instrDominates(r, in) {
+					continue
+				}
+				between := false
+				for _, b2 := range fn.Blocks {
+					for _, i2 := range b2.Instrs {
+						cc := callCommon(i2)
+						if cc == nil || cc.StaticCallee() == nil || !strings.Contains(FuncName(cc.StaticCallee()), "clientHelloMsg).marshal") && !strings.Contains(FuncName(cc.StaticCallee()), "clientHelloMsg).updateBinders") {
+							continue
+						}
+						if instrDominates(r, i2) && (i2.Block() == in.Block() && instrIndex(i2) < instrIndex(in) || i2.Block() != in.Block() && blockReaches(i2.Block(), in.Block())) {
+							between = true
+						}
+					}
+				}
+				if !between {
+					dropped = true
+				}
+			}
+			if dropped {
+				c.OK("R-STATE", short(FuncName(fn)), fmt.Sprintf("the change of %s (#%d) happens with the cached encoding already dropped", fieldName(fa), n), w.InstrPos(in), "")
+				continue
+			}
+			c.Cut(CutSpec{Rule: "R-STATE", Fn: fn, Label: fmt.Sprintf("after the change of %s (#%d) the cached encoding is dropped before the hello is marshalled (binders, transcript, wire)", fieldName(fa), n), StartAfter: in, MinTargets: -1,
+				Target: func(i2 ssa.Instruction, _ resolver) bool {
+					cc := callCommon(i2)
+					if cc == nil || cc.StaticCallee() == nil {
+						return false
+					}
+					nm := cc.StaticCallee().Name()
+					return strings.HasSuffix(FuncName(cc.StaticCallee()), "clientHelloMsg)."+nm) && (nm == "marshal" || nm == "marshalWithoutBinders")
+				},
+				Barrier: func(i2 ssa.Instruction) bool {
+					s2, ok := i2.(*ssa.Store)
+					if !ok {
+						return false
+					}
+					f2, ok := s2.Addr.(*ssa.FieldAddr)
+					return ok && fieldName(f2) == "clientHelloMsg.raw" && isNilConst(s2.Val)
+				}, Cut: func(Fact) bool { return false }})
+		}
+	}
+	c.Check(n >= 2, "R-STATE", "tls.processHelloRetryRequest", "hello field updates enumerated", w.Pos(fn.Pos()), fmt.Sprint(n))
+}
+
+func c25Extras(c *Ctx) {
+	w := c.W
+	// Conn.Write: every failed record write is made sticky, and the returned count includes the split-off first octet
+	if fn := w.Fn("(*z/tls.Conn).Write"); fn != nil {
+		calls := callsIn(fn, "(*z/tls.Conn).writeRecordLocked")
+		c.Check(len(calls) >= 2, "R-ERR", "tls.Conn.Write", "record writes enumerated", w.Pos(fn.Pos()), fmt.Sprint(len(calls)))
+		if len(calls) > 0 {
+			first := calls[0]
+			k := 0
+			for _, rt := range returnsOf(fn) {
+				if !instrDominates(first, rt) && !blockReaches(first.Block(), rt.Block()) {
+					continue
+				}
+				reach := false
+				for _, cl := range calls {
+					if cl.Block() == rt.Block() && instrIndex(cl) < instrIndex(rt) || (cl.Block() != rt.Block() && blockReaches(cl.Block(), rt.Block())) {
+						reach = true
+					}
+				}
+				if !reach {
+					continue
+				}
+				k++
+				c.Sites++
+				e := Expr(unspill(rt, 1))
+				c.Check(strings.HasPrefix(e, "(*tls.halfConn).setErrorLocked(c.out,(*tls.Conn).writeRecordLocked("), "R-ERR", "tls.Conn.Write", fmt.Sprintf("return #%d after a record write reports the error through c.out.setErrorLocked (a failed write is permanent)", k), w.InstrPos(rt), e)
+			}
+			// the count
+			var last *ssa.Return
+			var final ssa.Instruction
+			for _, cl := range calls {
+				all := true
+				for _, o := range calls {
+					if o != cl && !blockReaches(o.Block(), cl.Block()) {
+						all = false
+					}
+				}
+				if all {
+					final = cl
+				}
+			}
+			for _, rt := range returnsOf(fn) {
+				if final != nil && instrDominates(final, rt) {
+					last = rt
+				}
+			}
+			c.Check(last != nil, "R-PROV", "tls.Conn.Write", "the return after the final record write is identified", w.Pos(fn.Pos()), "")
+			if last != nil {
+				e := Expr(unspill(last, 0))
+				c.Check(strings.HasPrefix(e, "((*tls.Conn).writeRecordLocked(") && strings.Contains(e, "#0+φ("), "R-PROV", "tls.Conn.Write", "the byte count returned adds the octet sent in the split-off first record", w.InstrPos(last), e)
+			} else {
+				c.Fail("R-PROV", "tls.Conn.Write", "final return found", w.Pos(fn.Pos()), "")
+			}
+		}
+	} else {
+		c.Undecided("R-ERR", "tls.Conn.Write", "anchor", "-", "not found")
+	}
+	// readRecordOrCCS: a read error becomes permanent only if it is not a temporary net.Error (both read sites)
+	if fn := w.Fn("(*z/tls.Conn).readRecordOrCCS"); fn != nil {
+		n := 0
+		for _, in := range callsIn(fn, "(*z/tls.halfConn).setErrorLocked") {
+			cc := callCommon(in)
+			fromRead := false
+			for v := range backClosure(cc.Args[1], flowThrough) {
+				if cl := callOf(v); cl != nil && strings.HasSuffix(calleeName(&cl.Call), ").readFromUntil") {
+					fromRead = true
+				}
+			}
+			if !fromRead {
+				continue
+			}
+			n++
+			c.Sites++
+			c.Cut(CutSpec{Rule: "R-ERR", Fn: fn, Label: fmt.Sprintf("transport read error #%d is recorded as permanent only if it is not a temporary net.Error (a read deadline can be retried)", n), Target: isInstr(in), Cut: func(f Fact) bool {
+				if f.Op != "false" {
+					return false
+				}
+				e := Expr(f.X)
+				return strings.Contains(e, ".(net.Error)#1") || strings.HasPrefix(e, "(net.Error).Temporary(")
+			}})
+		}
+		c.Check(n == 2, "R-ERR", "tls.readRecordOrCCS", "both transport read sites handle errors the same way", w.Pos(fn.Pos()), fmt.Sprint(n))
+	}
+	// halfConn.decrypt: the MAC offset of the MAC-then-encrypt path is clamped to be non-negative
+	if fn := w.Fn("(*z/tls.halfConn).decrypt"); fn != nil {
+		n := 0
+		for _, b := range fn.Blocks {
+			for _, in := range b.Instrs {
+				sl, ok := in.(*ssa.Slice)
+				if !ok || sl.Low == nil || sl.High == nil || !strings.Contains(Expr(sl.High), "macSize") && !strings.Contains(Expr(sl.High), "Size(") {
+					continue
+				}
+				if _, isC := sl.Low.(*ssa.Const); isC {
+					continue
+				}
+				lowE := Expr(sl.Low)
+				if !strings.Contains(Expr(sl.High), lowE) {
+					continue
+				}
+				n++
+				c.Sites++
+				c.Check(strings.HasPrefix(lowE, "crypto/subtle.ConstantTimeSelect("), "R-BOUNDS", "tls.halfConn.decrypt", "the MAC offset computed from attacker-controlled padding is clamped to >= 0 before it is used as a slice bound", w.InstrPos(in), lowE)
+			}
+		}
+		c.Check(n >= 1, "R-BOUNDS", "tls.halfConn.decrypt", "MAC slice found", w.Pos(fn.Pos()), fmt.Sprint(n))
+	}
+}
+
+func c27Extras(c *Ctx) {
+	w := c.W
+	// verifyHandshakeSignature: nil only past a successful verification primitive
+	if fn := w.Fn("z/tls.verifyHandshakeSignature"); fn != nil {
+		c.Cut(CutSpec{Rule: "R-CUT", Fn: fn, Label: "returns nil only past a signature verification that succeeded (every signature type, every key type)", Target: SuccessReturn(0, nil), Cut: func(f Fact) bool {
+			cl := callOf(f.X)
+			if cl == nil {
+				return false
+			}
+			n := calleeName(&cl.Call)
+			switch {
+			case f.Op == "true" && (strings.HasSuffix(n, "ecdsa.VerifyASN1") || strings.HasSuffix(n, "ecdsa.Verify") || strings.HasSuffix(n, "ed25519.Verify")):
+				return true
+			case f.Op == "nil" && (strings.HasSuffix(n, "rsa.VerifyPKCS1v15") || strings.HasSuffix(n, "rsa.VerifyPSS")):
+				return true
+			}
+			return false
+		}})
+	} else {
+		c.Undecided("R-CUT", "tls.verifyHandshakeSignature", "anchor", "-", "not found")
+	}
+	// loadSession: a verifying client offers a cached session only if its chain was verified when it was stored
+	if fn := w.Fn("(*z/tls.Conn).loadSession"); fn != nil {
+		c.Cut(CutSpec{Rule: "R-CUT", Fn: fn, Label: "a cached session is offered only if InsecureSkipVerify is set or the session carries verified chains", Target: func(in ssa.Instruction, res resolver) bool {
+			rt, ok := in.(*ssa.Return)
+			if !ok || len(rt.Results) < 2 {
+				return false
+			}
+			return !isNilConst(res(unspill(rt, 1)))
+		}, MinTargets: -1, Cut: AnyF(factExpr("true", "c.config.InsecureSkipVerify", ""), func(f Fact) bool {
+			return (f.Op == "ne" || f.Op == "gt") && f.Y != nil && Expr(f.Y) == "0" && strings.HasPrefix(Expr(f.X), "len(") && strings.Contains(Expr(f.X), ".verifiedChains)")
+		})})
+	} else {
+		c.Undecided("R-CUT", "tls.loadSession", "anchor", "-", "not found")
+	}
+}
+
+func c28Extras(c *Ctx) {
+	w := c.W
+	// ExternalClientHello path: after the server name of the template was replaced, the cached bytes are dropped
+	// before the hello is sent (log and wire then agree on the name)
+	fn := w.Fn("(*z/tls.Conn).clientHandshake")
+	if fn == nil {
+		return
+	}
+	n := 0
+	for _, in := range storesToField(fn, "clientHelloMsg.serverName") {
+		n++
+		c.Sites++
+		c.Cut(CutSpec{Rule: "R-STATE", Fn: fn, Label: fmt.Sprintf("after hello.serverName is replaced (#%d) the cached encoding is dropped on every path before the hello is marshalled", n), StartAfter: in, MinTargets: -1,
+			Target: func(i2 ssa.Instruction, _ resolver) bool {
+				cc := callCommon(i2)
+				return cc != nil && cc.StaticCallee() != nil && strings.HasSuffix(FuncName(cc.StaticCallee()), "clientHelloMsg).marshal")
+			},
+			Barrier: func(i2 ssa.Instruction) bool {
+				s2, ok := i2.(*ssa.Store)
+				if !ok {
+					return false
+				}
+				f2, ok := s2.Addr.(*ssa.FieldAddr)
+				return ok && fieldName(f2) == "clientHelloMsg.raw" && isNilConst(s2.Val)
+			}, Cut: func(Fact) bool { return false }})
+	}
+	c.Check(n >= 1, "R-STATE", "tls.clientHandshake", "server-name replacement on the external-hello path found", w.Pos(fn.Pos()), fmt.Sprint(n))
+}
+
+func c31Extras(c *Ctx) {
+	w := c.W
+	pkg := "z/tls"
+	// (a) ticket key material is drawn with io.ReadFull: no direct Read on the configured entropy source
+	n := 0
+	for _, fn := range w.FuncsInFile("tls/common.go") {
+		for _, b := range fn.Blocks {
+			for _, in := range b.Instrs {
+				cc := callCommon(in)
+				if cc == nil {
+					continue
+				}
+				if cc.IsInvoke() && cc.Method.Name() == "Read" {
+					if cl := callOf(cc.Value); cl != nil && strings.HasSuffix(calleeName(&cl.Call), "Config).rand") {
+						c.Fail("R-PROV", short(FuncName(fn)), "randomness is drawn with io.ReadFull (a short Read would leave key bytes zero)", w.InstrPos(in), "direct Read on Config.rand()")
+					}
+				}
+				if calleeName(cc) == "io.ReadFull" {
+					if cl := callOf(cc.Args[0]); cl != nil && strings.HasSuffix(calleeName(&cl.Call), "Config).rand") {
+						n++
+					}
+				}
+			}
+		}
+	}
+	c.Check(n >= 2, "R-PROV", "tls/common.go", "ticket key seeds are filled by io.ReadFull(config.rand(), ...)", "-", fmt.Sprint(n))
+	// (b) the rotated key list holds only real keys: it is grown by append from an empty slice
+	for _, wr := range w.FieldWrites()["Config.autoSessionTicketKeys"] {
+		if wr.Kind != "store" || strings.HasSuffix(w.RelFile(wr.Fn.Pos()), "_test.go") {
+			continue
+		}
+		c.Sites++
+		ok := true
+		det := ""
+		for v := range backClosure(wr.Val, nil) {
+			if mk, isMk := v.(*ssa.MakeSlice); isMk {
+				if k, isC := intConst(mk.Len); !isC || k != 0 {
+					ok = false
+					det = "the list is made with length " + Expr(mk.Len) + " (zero-valued keys would match an all-zero key name)"
+				}
+			}
+		}
+		c.Check(ok, "R-VSET", short(FuncName(wr.Fn)), "the installed ticket key list contains only keys that were appended to it", w.InstrPos(wr.In), det)
+	}
+	_ = pkg
+}
+
+func c34Extras(c *Ctx) {
+	w := c.W
+	// the handshake is marked complete only after the last flush of that handshake function
+	n := 0
+	for _, fn := range w.FuncsOfPkg("z/tls") {
+		if strings.HasSuffix(w.RelFile(fn.Pos()), "_test.go") {
+			continue
+		}
+		for _, in := range callsIn(fn, "sync/atomic.StoreUint32") {
+			cc := callCommon(in)
+			fa, ok := cc.Args[0].(*ssa.FieldAddr)
+			if !ok || fieldName(fa) != "Conn.handshakeStatus" {
+				continue
+			}
+			if k, isC := intConst(cc.Args[1]); !isC || k != 1 {
+				continue
+			}
+			n++
+			c.Sites++
+			c.Cut(CutSpec{Rule: "R-ORDER", Fn: fn, Label: "handshakeStatus is set to 1 only after this function's last flush (Close/CloseWrite may touch the send buffer once it is set)", StartAfter: in, MinTargets: -1,
+				Target: func(i2 ssa.Instruction, _ resolver) bool {
+					c2 := callCommon(i2)
+					return c2 != nil && c2.StaticCallee() != nil && FuncName(c2.StaticCallee()) == expand("(*z/tls.Conn).flush")
+				}, Cut: func(Fact) bool { return false }})
+		}
+	}
+	c.Check(n == 4, "R-ORDER", "z/tls", "the four handshake-complete stores found", "-", fmt.Sprint(n))
+}
+
+// c25WriteRules: the Conn.Write obligations of c25Extras are also C34's ("a failed write is permanent").
+func c25WriteRules(c *Ctx) {
+	sub := &Ctx{W: c.W, FnsSeen: map[string]bool{}, extra: map[string]any{}}
+	c25Extras(sub)
+	for _, o := range sub.Obls {
+		if o.Rule == "R-ERR" && strings.Contains(o.Func, "Write") {
+			c.Obls = append(c.Obls, o)
+		}
+	}
+}
